@@ -387,3 +387,119 @@ Definition collector_run_reload (pf : bool) (gens : list gen) : list (list ev * 
       | [] => reload_loop pf g0 ls rest
       end
   end.
+
+(* ---- the topological sort as an ALGORITHM ---------------------------------------------------------
+   gonum topo.Sort returns one of the valid orders; which one depends on Go's map iteration order
+   (service/extensions/graph.go computeOrder ranges over exts.extMap; simple.DirectedGraph keeps its
+   nodes in maps).  The model algorithm has the same freedom: [pref] plays the role of the
+   iteration order — at every step the first node of [pref ++ ns] that is still unplaced and has no
+   unplaced predecessor is placed next.  With [pref] ranging over all lists its outputs are exactly
+   the valid topological orders (soundness: Properties.topo_sort_sound; every valid order o is the
+   output for pref = o: evaluated on every correspondence case, where pref = the order the
+   implementation produced).  When no node is ready the remaining nodes contain a cycle; like
+   cycleErr (topo.DirectedCyclesIn) the error names one. *)
+Inductive sort_result : Type := Sorted (o : list nat) | Cyclic (c : list nat).
+
+(* every predecessor of n is placed already (not among the remaining nodes) *)
+Definition is_ready (es : list (nat * nat)) (remaining : list nat) (n : nat) : bool :=
+  forallb (fun e => if Nat.eqb (snd e) n then negb (mem (fst e) remaining) else true) es.
+
+Fixpoint first_ready (es : list (nat * nat)) (remaining pref : list nat) : option nat :=
+  match pref with
+  | [] => None
+  | p :: r => if mem p remaining
+              then (if is_ready es remaining p then Some p else first_ready es remaining r)
+              else first_ready es remaining r
+  end.
+
+Definition remove_node (n : nat) (l : list nat) : list nat := filter (fun x => negb (Nat.eqb x n)) l.
+
+(* a predecessor of cur that is still unplaced *)
+Definition pred_in (es : list (nat * nat)) (remaining : list nat) (cur : nat) : option nat :=
+  option_map fst (find (fun e => Nat.eqb (snd e) cur && mem (fst e) remaining) es).
+
+Fixpoint take_to (p : nat) (l : list nat) : list nat :=
+  match l with
+  | [] => []
+  | x :: r => if Nat.eqb x p then [] else x :: take_to p r
+  end.
+
+(* walk backwards along unplaced predecessors until a node repeats; [ch] = the walk so far,
+   ch[0] -> ch[1] -> ... are edges *)
+Fixpoint walk (fuel : nat) (es : list (nat * nat)) (remaining ch : list nat) : list nat :=
+  match fuel with
+  | 0 => []
+  | S f =>
+      match ch with
+      | [] => []
+      | cur :: _ =>
+          match pred_in es remaining cur with
+          | None => []
+          | Some p => if mem p ch then p :: take_to p ch else walk f es remaining (p :: ch)
+          end
+      end
+  end.
+
+Definition find_cycle (es : list (nat * nat)) (remaining : list nat) : list nat :=
+  match remaining with
+  | [] => []
+  | n :: _ => walk (S (length remaining)) es remaining [n]
+  end.
+
+Fixpoint topo_sort_aux (fuel : nat) (es : list (nat * nat)) (pref remaining placed_rev : list nat) : sort_result :=
+  match remaining with
+  | [] => Sorted (rev placed_rev)
+  | _ :: _ =>
+      match fuel with
+      | 0 => Cyclic []
+      | S f =>
+          match first_ready es remaining pref with
+          | Some n => topo_sort_aux f es pref (remove_node n remaining) (n :: placed_rev)
+          | None => Cyclic (find_cycle es remaining)
+          end
+      end
+  end.
+
+Definition topo_sort (ns : list nat) (es : list (nat * nat)) (pref : list nat) : sort_result :=
+  topo_sort_aux (length ns) es (pref ++ ns) ns [].
+
+(* the cycle named by an error is a real one: consecutive nodes are joined by edges, and the last is
+   joined to the first *)
+Fixpoint chainb (es : list (nat * nat)) (l : list nat) : bool :=
+  match l with
+  | a :: ((b :: _) as r) => existsb (fun e => Nat.eqb (fst e) a && Nat.eqb (snd e) b) es && chainb es r
+  | _ => true
+  end.
+
+Definition is_cycle (es : list (nat * nat)) (c : list nat) : bool :=
+  match c with
+  | [] => false
+  | a :: _ => chainb es (c ++ [a])
+  end.
+
+(* extensions.New: computeOrder over the configured extensions; graph.Build / StartAll / ShutdownAll:
+   topo.Sort over the component graph.  [None] = the service is not built (cycle error). *)
+Definition orders_by (g : graph) (x : extset) (pe ps pp : list nat) : option orders :=
+  match topo_sort (exts x) (deps x) pe, topo_sort (nodes g) (edges g) ps, topo_sort (nodes g) (edges g) pp with
+  | Sorted eo, Sorted so, Sorted po => Some {| ext_order := eo; start_order := so; stop_order := po |}
+  | _, _, _ => None
+  end.
+
+(* ---- which nodes of the component graph are components ---------------------------------------------
+   StartAll / ShutdownAll:  comp, ok := node.(component.Component); if !ok { continue }
+   The graph has six node types; the four that embed component.Component have Start and Shutdown in
+   their method set, capabilitiesNode and fanOutNode do not.  (Obligation Proofs8.kind_is_comp_generated:
+   this table equals the method sets read from the current source by translator T1.) *)
+Inductive node_kind : Type := KReceiver | KProcessor | KExporter | KConnector | KCapabilities | KFanOut.
+
+Definition kind_is_comp (k : node_kind) : bool :=
+  match k with
+  | KReceiver | KProcessor | KExporter | KConnector => true
+  | KCapabilities | KFanOut => false
+  end.
+
+(* computeOrder as it is: gonum's simple.DirectedGraph.SetEdge PANICS ("simple: adding self edge")
+   when an extension lists itself among its Dependencies(); every other dependency cycle is
+   reported as an error naming a cycle.  None = the panic. *)
+Definition compute_order (es_nodes : list nat) (ds : list (nat * nat)) (pref : list nat) : option sort_result :=
+  if existsb (fun d => Nat.eqb (fst d) (snd d)) ds then None else Some (topo_sort es_nodes ds pref).
